@@ -1,6 +1,7 @@
 package kdcproxy
 
 import (
+	"encoding/binary"
 	"fmt"
 	krbconfig "github.com/bolkedebruin/gokrb5/v8/config"
 	"github.com/jcmturner/gofork/encoding/asn1"
@@ -19,8 +20,8 @@ const (
 
 type KdcProxyMsg struct {
 	Message []byte `asn1:"tag:0,explicit"`
-	Realm   string `asn1:"tag:1,optional"`
-	Flags   int    `asn1:"tag:2,optional"`
+	Realm   string `asn1:"tag:1,optional,explicit,generalstring"`
+	Flags   int    `asn1:"tag:2,optional,explicit"`
 }
 
 type Kdc struct {
@@ -119,16 +120,22 @@ func (k *KerberosProxy) forward(realm string, data []byte) (resp []byte, err err
 		return nil, fmt.Errorf("cannot get any kdcs (tcp or udp) for realm %s", realm)
 	}
 
-	// merge the kdcs
-	kdcs := make([]Kdc, tcpCnt+udpCnt)
-	for i := range udpKdcs {
-		kdcs[i] = Kdc{Realm: realm, Host: udpKdcs[i], Proto: "udp"}
+	// the kerberos message carries a 4 byte length prefix, which is stripped for udp
+	if len(data) < 4 {
+		return nil, fmt.Errorf("kerberos message too short")
 	}
-	for i := range tcpKdcs {
-		kdcs[i+udpCnt] = Kdc{Realm: realm, Host: tcpKdcs[i], Proto: "tcp"}
+
+	// merge the kdcs (GetKDCs numbers them from 1)
+	kdcs := make([]Kdc, 0, tcpCnt+udpCnt)
+	for i := 1; i <= udpCnt; i++ {
+		kdcs = append(kdcs, Kdc{Realm: realm, Host: udpKdcs[i], Proto: "udp"})
+	}
+	for i := 1; i <= tcpCnt; i++ {
+		kdcs = append(kdcs, Kdc{Realm: realm, Host: tcpKdcs[i], Proto: "tcp"})
 	}
 
 	replies := make(chan []byte, len(kdcs))
+	pending := 0
 	for i := range kdcs {
 		conn, err := net.Dial(kdcs[i].Proto, kdcs[i].Host)
 
@@ -151,17 +158,22 @@ func (k *KerberosProxy) forward(realm string, data []byte) (resp []byte, err err
 		}
 
 		kdcs[i].Conn = conn
+		pending++
 		go awaitReply(conn, kdcs[i].Proto == "udp", replies)
 	}
 
-	reply := <-replies
+	// every started reader sends exactly one value: wait for the first reply
+	var reply []byte
+	for ; pending > 0 && reply == nil; pending-- {
+		reply = <-replies
+	}
 
-	// close all the connections and return the first reply
+	// close all the connections; the remaining readers end and leave their
+	// value in the buffered channel
 	for kdc := range kdcs {
 		if kdcs[kdc].Conn != nil {
 			kdcs[kdc].Conn.Close()
 		}
-		<-replies
 	}
 
 	if reply != nil {
@@ -195,16 +207,43 @@ func encode(krb5data []byte) (r []byte, err error) {
 	return enc, nil
 }
 
+// awaitReply reads one kerberos reply from the kdc and sends it, with its 4
+// byte length prefix, on the channel; nil if no complete reply was received
 func awaitReply(conn net.Conn, isUdp bool, reply chan<- []byte) {
-	resp, err := io.ReadAll(conn)
-	if err != nil {
+	if isUdp {
+		// one datagram is one message; udp is missing the length prefix so add it
+		buf := make([]byte, maxLength)
+		n, err := conn.Read(buf)
+		if err != nil {
+			log.Printf("error reading from kdc due to %s", err)
+			reply <- nil
+			return
+		}
+		resp := make([]byte, 4, 4+n)
+		binary.BigEndian.PutUint32(resp, uint32(n))
+		reply <- append(resp, buf[:n]...)
+		return
+	}
+
+	// tcp: the length prefix tells how much to read, the kdc may keep the connection open
+	header := make([]byte, 4)
+	if _, err := io.ReadFull(conn, header); err != nil {
 		log.Printf("error reading from kdc due to %s", err)
 		reply <- nil
 		return
 	}
-	if isUdp {
-		// udp will be missing the length prefix so add it
-		resp = append([]byte{byte(len(resp))}, resp...)
+	size := binary.BigEndian.Uint32(header)
+	if size > maxLength {
+		log.Printf("kdc reply of %d bytes is too large", size)
+		reply <- nil
+		return
+	}
+	resp := make([]byte, 4+size)
+	copy(resp, header)
+	if _, err := io.ReadFull(conn, resp[4:]); err != nil {
+		log.Printf("error reading from kdc due to %s", err)
+		reply <- nil
+		return
 	}
 	reply <- resp
 }
